@@ -69,6 +69,22 @@ def r2_create_builtins(ctx):
         r.check(not any(x in wo for x in retb), "insert/%s/absent=>created" % short, "absent ⇒ created on every path", "with the pool absent a path skips its creation", where)
         f2 = force(b, tbl_pre)
         r.check(bi not in f2.reach, "insert/%s/present=>kept" % short, "present ⇒ not overwritten", "an existing pool is overwritten", where)
+        # "exists with non-zero reserves" needs liquidity nobody can withdraw.  A pool created by create_builtins has it (the initial deposit's tokens
+        # are discarded).  The always-created pools cannot be pre-empted: they are inserted in the chain's first seal, before any request is processed (R1).
+        # A pool that becomes a built-in only when a TIP activates can have been created by users before: then the present-branch leaves it wholly
+        # user-owned, and its creator can withdraw it down to nothing.
+        if want[k]:
+            tp = dict(tbl_pre)
+            for x in t902:
+                tp[x] = 1
+            f3 = force(b, tp)
+            tops = [cb for cb, x in q.call_exprs(b, "PoolState::deposit") if cb in f3.reach_from(0) and not b.dominates(cb, 0) and any(cb in f3.reach_from(g) for g, _ in q.call_exprs(b, "SmtMapping::get"))
+                    and sig(q.novers(x[2][0])) != sig(q.novers(e[2][2]))]
+            # a clause of C16 itself ("exists with non-zero reserves"); importers (C09) use this rule for the pools that cannot be pre-empted and
+            # decide the uses of this pool's reserves separately (C09 priced-pool), so for them it is information only
+            (r.check if ctx.pid == "C16" or tops else (lambda c_, k_, a_, b_=None, w_=None: r.info(k_, b_ or a_, w_)))(bool(tops), "insert/%s/preemptible" % short, "an already existing pool is topped up with unowned liquidity when it becomes a built-in",
+                    "%s becomes a built-in only under a TIP flag; when users created it earlier, create_builtins keeps it as it is — wholly user-owned — so it can be "
+                    "withdrawn down to zero reserves afterwards" % short, where)
         # value went through deposit(c, c)
         v = e[2][2]
         deps = [(cb, x) for cb, x in q.call_exprs(b, "PoolState::deposit") if b.dominates(cb, bi) and q.novers(x[2][0]) == q.novers(v)]
